@@ -185,8 +185,12 @@ def _solve_cli(cmd, smt2, budget_s):
 
 def _work(args):
     """Solve one obligation (runs in a pool process).  Returns (index, verdict, seconds, solver, model, out)."""
-    idx, smt2, budget_s, expect, backend = args
+    idx, smt2, budget_s, expect, backend = args[:5]
+    deadline = args[5] if len(args) > 5 else None
     t0 = time.time()
+    if deadline is not None and t0 > deadline:
+        # best-effort obligations (never claimed) are attempted only while the wall budget of the run lasts
+        return idx, UNDECIDED, 0.0, "not-attempted", None, "not attempted: the wall budget for best-effort obligations of this run is used up"
     try:
         res, model, why = "unknown", None, ""
         solver = "z3-%s" % backend if backend != "z3" else "z3"
@@ -229,14 +233,18 @@ def solve_all(obls, nproc=None, progress=True):
     """Discharge all obligations that carry an smt2 script; the others keep their decided verdict."""
     nproc = nproc or NPROC
     todo = []
+    wall = float(os.environ.get("VERIF_BESTEFFORT_WALL", "1200"))
+    deadline = time.time() + wall
     for i, o in enumerate(obls):
         if o.smt2 is not None and o.verdict is None:
-            todo.append((i, o.smt2, o.budget_s, o.expect, o.backend))
+            # obligations marked best-effort (meta) are never claimed and nothing claimed rests on them: they may be skipped
+            skippable = (not o.claimed) and bool((o.meta or {}).get("besteffort"))
+            todo.append((i, o.smt2, o.budget_s, o.expect, o.backend, deadline if skippable else None))
         elif o.verdict is None:
             o.verdict = o.decided or ERROR
             o.solver = o.solver or "decider"
     # longest budgets first so the tail is short
-    todo.sort(key=lambda a: -a[2])
+    todo.sort(key=lambda a: (a[5] is not None, -a[2]))  # what may be skipped comes last
     if todo:
         ctx = mp.get_context("fork")
         with ctx.Pool(min(nproc, len(todo))) as pool:
